@@ -263,15 +263,17 @@ def python_sort(ck):
     """the real sparse_frame.sort / reorder / mask on frames whose pixel values are symbolic (object arrays)"""
     import ImageD11.sparseframe as SF
     ck.encoded("ImageD11/sparseframe.py:sparse_frame.sort/sort_by/reorder/mask/set_pixels")
-    coords = [(0, 1), (2, 0), (1, 1), (0, 0)]
+    # concrete coordinates (the ordering itself is numpy's C code), symbolic pixel values; the second and third sets put pixels at the ends of
+    # the uint16 coordinate range and beyond flat index 65535 (any arithmetic on the uint16 coordinates would wrap there)
     nprob = 0
-    for n in (2, 3, 4):
+    for coords, shape in (([(0, 1), (2, 0), (1, 1), (0, 0)], (3, 2)), ([(0, 65533), (1, 0), (65533, 1), (0, 0)], (65534, 65534)), ([(299, 299), (0, 1), (218, 150), (219, 0)], (300, 300))):
+      for n in (2, 3, 4):
         for perm in itertools.permutations(range(n)):
             pts = [coords[k] for k in perm]
             row = np.array([p[0] for p in pts], np.uint16); col = np.array([p[1] for p in pts], np.uint16)
             vals = np.array([pysym.var("v%d" % k) for k in range(n)], dtype=object)
             try:
-                spf = SF.sparse_frame(row.copy(), col.copy(), (3, 2)); spf.set_pixels("intensity", vals.copy())
+                spf = SF.sparse_frame(row.copy(), col.copy(), shape); spf.set_pixels("intensity", vals.copy())
                 spf.sort()
             except Exception as e:
                 ck.path("python-sort:%s" % (pts,))
@@ -283,7 +285,7 @@ def python_sort(ck):
             attached = all(spf.pixels["intensity"][k].t.eq(vals[pts.index(want[k])].t) for k in range(n))
             if got != want or not attached:
                 ck.violation("sparse_frame.sort(): coordinates %s values attached=%s, expected %s" % (got, attached, want), "sparseframe.py:sparse_frame.sort:order", dict(rows=row.tolist(), cols=col.tolist())); nprob += 1
-    if nprob == 0: ck.ok("sparse_frame.sort establishes row-major order and keeps (symbolic) pixel values attached on all permutations of <= 4 pixels")
+    if nprob == 0: ck.ok("sparse_frame.sort establishes row-major order and keeps (symbolic) pixel values attached on all permutations of <= 4 pixels (3 coordinate sets incl. the ends of the uint16 range)")
     # mask(): subset keeps coordinates and values together
     row = np.array([0, 0, 1, 2], np.uint16); col = np.array([0, 1, 1, 0], np.uint16); vals = np.array([pysym.var("v%d" % k) for k in range(4)], dtype=object); bad = 0
     for bits in itertools.product([False, True], repeat=4):
